@@ -25,4 +25,9 @@ theorem overprod_is_code (p : Params d) (alpha dTot prod : Ind d → Rat) (f : I
   · simp only [h0, ne_eq, not_true_eq_false, if_false, not_false_eq_true, if_true]
     formula_cases
 
+/-- the overproduction phase of a step is the code's update applied to every industry. -/
+theorem overprodPhase_is_code (p : Params d) (e : Econ d) (f : Ind d) :
+    (overprodPhase p e).alpha f = calc_overproduction (e.alpha f) p.aMax p.aBase p.aTau (e.dTot f) (e.prod f) := by
+  rw [overprod_is_code]; rfl
+
 end Boario.Gen
